@@ -154,6 +154,19 @@ CLAIMED = {
          "the closed listener are outside the model (D16)"),
    technique="Lean 4 invariant proof over all interleavings + regenerated program-order facts + end-to-end cancellation scenarios",
    design='7/C17'),
+ 'C18': dict(
+   text=("Proof (Lean 4) over a model of the whole HPACK codec (varints, strings, Huffman over the REGENERATED code table, static + "
+         "dynamic table, incremental decoder with saveBuf/firstField/maxStrLen, encoder): varint round trip for every prefix size "
+         "(varint_roundtrip), the dynamic table never exceeds the size permitted at that moment after add / limit change / wire update "
+         "(add_bounded, setMaxSize_bounded, size_update_limited), the regenerated Huffman table is a prefix code whose tree decodes "
+         "every symbol and rejects EOS (huffman_tree_correct, eos_rejected; kernel evaluation over all 256 codes); decoder and encoder "
+         "are total functions. Model tied to the code by exact differentials on encoder sequences and on the decoder over encoder "
+         "output / mutations / random bytes / fragmentations; ORACLES: round trip with identical tables, fragment independence"),
+   note=("PARTIAL: codec round trip and fragment independence are decided by the oracles over generated inputs, not yet by theorems. "
+         "Trusted: Lean kernel + standard axioms (decide +kernel uses kernel evaluation, no extra axioms); translator; harness. The "
+         "server links x/net v0.19.0's copy of hpack, not this one. Found and fixed D6 and D12"),
+   technique="Lean 4 theorems over a full executable model + regenerated tables + differential with round-trip / fragmentation oracles",
+   design='7/C18'),
  'C20': dict(
    text=("Proof (Lean 4) for the round-robin scheduler model (writeQueue, Consume, ring) and the random scheduler as an arbitrary choice "
          "among ready streams: control frames first (control_first_*), every released DATA piece within stream window, connection "
